@@ -19,7 +19,7 @@ T_LIST, T_INT, T_FLOAT, T_BOOL, T_NONE, T_STR, T_OTHER = range(7)
 
 
 def budget(tier):
-    return 4000 if tier == "quick" else 80000
+    return 20000 if tier == "quick" else 200000
 
 
 def _num(rng, v, scale):
